@@ -12,7 +12,7 @@ use async_lsp::lsp_types::{
     ReferenceParams, ServerCapabilities, TextDocumentSyncCapability, TextDocumentSyncKind, Url,
 };
 use async_lsp::router::Router;
-use async_lsp::{ClientSocket, LanguageClient, LanguageServer, ResponseError};
+use async_lsp::{ClientSocket, ErrorCode, LanguageClient, LanguageServer, ResponseError};
 use futures::future::{ready, BoxFuture};
 use tokio::task::{self};
 
@@ -113,7 +113,7 @@ impl LanguageServer for Server {
             let lsp_hover = to_proto::hover(hover);
             Ok(Some(lsp_hover))
         });
-        Box::pin(async move { task.await.unwrap() })
+        Box::pin(answer(task))
     }
 
     fn definition(
@@ -135,7 +135,7 @@ impl LanguageServer for Server {
             let lsp_location = to_proto::location(&vfs, &line_index, location);
             Ok(Some(GotoDefinitionResponse::Scalar(lsp_location)))
         });
-        Box::pin(async move { task.await.unwrap() })
+        Box::pin(answer(task))
     }
 
     fn references(
@@ -158,7 +158,7 @@ impl LanguageServer for Server {
                 .collect();
             Ok(Some(lsp_location_list))
         });
-        Box::pin(async move { task.await.unwrap() })
+        Box::pin(answer(task))
     }
 
     fn document_symbol(
@@ -178,7 +178,7 @@ impl LanguageServer for Server {
                 .collect();
             Ok(Some(DocumentSymbolResponse::Nested(lsp_symbols)))
         });
-        Box::pin(async move { task.await.unwrap() })
+        Box::pin(answer(task))
     }
 
     fn inlay_hint(
@@ -199,7 +199,7 @@ impl LanguageServer for Server {
                 .collect();
             Ok(Some(lsp_inlay_hints))
         });
-        Box::pin(async move { task.await.unwrap() })
+        Box::pin(answer(task))
     }
 
     fn completion(
@@ -220,7 +220,7 @@ impl LanguageServer for Server {
                 .collect();
             Ok(Some(CompletionResponse::Array(lsp_completion_list)))
         });
-        Box::pin(async move { task.await.unwrap() })
+        Box::pin(answer(task))
     }
 
     fn document_link(
@@ -243,7 +243,7 @@ impl LanguageServer for Server {
                 .collect();
             Ok(Some(lsp_links))
         });
-        Box::pin(async move { task.await.unwrap() })
+        Box::pin(answer(task))
     }
 
     fn folding_range(
@@ -263,7 +263,7 @@ impl LanguageServer for Server {
                 .collect();
             Ok(Some(lsp_folding_ranges))
         });
-        Box::pin(async move { task.await.unwrap() })
+        Box::pin(answer(task))
     }
 
     fn did_open(&mut self, params: DidOpenTextDocumentParams) -> Self::NotifyResult {
@@ -360,6 +360,17 @@ impl Server {
         let f = crate::verif_hooks::track(f);
         task::spawn_blocking(move || f(snap, params))
     }
+}
+
+/// The answer of a request computed by a snapshot task. A task that panicked answers with an
+/// internal error; it does not take the main loop (and every later request) down with it.
+async fn answer<T>(task: task::JoinHandle<Result<T, ResponseError>>) -> Result<T, ResponseError> {
+    task.await.unwrap_or_else(|err| {
+        Err(ResponseError::new(
+            ErrorCode::INTERNAL_ERROR,
+            format!("request failed: {err}"),
+        ))
+    })
 }
 
 pub struct ServerSnapshot {
